@@ -1,11 +1,15 @@
 /-
-C07 — the uri scanner reads back every rendered file (`uriPass (renderItems …) = expAmmo …`).
+C07 — the uri scanner reads back every rendered file (`uriPassLim lim (renderItems …) = expAmmo …`).
 -/
 import Pandora.Proofs.C07Lib
 import Pandora.Spec.C07
 
 namespace Pandora.Proofs.C07
 open Pandora.Model.C07 Pandora.Spec.C07
+
+-- the token limit of the decoder's Scanner: every lemma of this file holds for any limit (`none`: the decoder of /repo
+-- since 66b1841; `some maxTok`: the default Scanner it had before)
+variable {lim : Option Nat}
 
 /-- ` tag` or nothing -/
 def tagPart (t : Bytes) : Bytes := if t.isEmpty then [] else SP :: t
@@ -86,16 +90,16 @@ theorem allWs_dropCR {p : Bytes} (hp : allWs p) : allWs (dropCR p) := by
 
 /-! ### one line -/
 
-theorem uriPass_nil (h : Hdrs) : uriPass [] h = ([], .eof) := by
-  rw [uriPass]
+theorem uriPass_nil (h : Hdrs) : uriPassLim lim [] h = ([], .eof) := by
+  rw [uriPassLim]
 
 /-- a complete line `line ⏎ R`, or the unterminated last line `line` (then `R = []`) -/
-theorem uriPass_line (line R bs : Bytes) (h : Hdrs) (hline : LF ∉ line) (hfit : line.length < maxTok)
+theorem uriPass_line (line R bs : Bytes) (h : Hdrs) (hline : LF ∉ line) (hfit : tooLong lim line.length = false)
     (hbs : bs = line ++ LF :: R ∨ (bs = line ∧ line ≠ [] ∧ R = [])) :
-    uriPass bs h =
+    uriPassLim lim bs h =
       match uriLine (dropCR line) h with
-      | .skip h' => uriPass R h'
-      | .ammo a => (a :: (uriPass R h).1, (uriPass R h).2)
+      | .skip h' => uriPassLim lim R h'
+      | .ammo a => (a :: (uriPassLim lim R h).1, (uriPassLim lim R h).2)
       | .err e => ([], .err e) := by
   have hcut : cut LF bs = (line, R, !R.isEmpty || bs != line) ∨ True := Or.inr trivial
   clear hcut
@@ -110,10 +114,10 @@ theorem uriPass_line (line R bs : Bytes) (h : Hdrs) (hline : LF ∉ line) (hfit 
   cases hb : bs with
   | nil => exact absurd hb hne
   | cons b r =>
-    rw [uriPass]
+    rw [uriPassLim]
     rw [hb] at hc
     simp only [hc.1, hc.2]
-    rw [if_neg (by omega)]
+    simp only [hfit, Bool.false_eq_true, if_false]
     cases uriLine (dropCR line) h <;> rfl
 
 /-- a blank line -/
@@ -201,27 +205,24 @@ theorem uriLine_req (u t b : Bytes) (l : ItemLay) (h : Hdrs) (hu : targetOK u = 
 
 /-! ### token limit bookkeeping -/
 
-/-- every line of `bs` fits a `bufio.Scanner` token -/
-def fits (bs : Bytes) : Prop := ∀ l ∈ splitOn LF bs, l.length < maxTok
+/-- every line of `bs` fits a `bufio.Scanner` token of limit `lim` -/
+def fits (lim : Option Nat) (bs : Bytes) : Prop := ∀ l ∈ splitOn LF bs, tooLong lim l.length = false
 
-theorem fits_line {line R : Bytes} (hl : LF ∉ line) (h : fits (line ++ LF :: R)) : line.length < maxTok ∧ fits R := by
+theorem fits_line {line R : Bytes} (hl : LF ∉ line) (h : fits lim (line ++ LF :: R)) : tooLong lim line.length = false ∧ fits lim R := by
   unfold fits at h
   rw [splitOn_append_sep LF line R hl] at h
   exact ⟨h line (by simp), fun l hm => h l (by simp [hm])⟩
 
-theorem fits_last {line : Bytes} (hl : LF ∉ line) (h : fits line) : line.length < maxTok := by
+theorem fits_last {line : Bytes} (hl : LF ∉ line) (h : fits lim line) : tooLong lim line.length = false := by
   unfold fits at h
   rw [splitOn_no_sep LF line hl] at h
   exact h line (by simp)
 
-theorem fits_nil : fits [] := by
-  intro l hl; simp [splitOn] at hl; subst hl; decide
-
 /-! ### blank lines, trailing blanks -/
 
 theorem uriPass_blanks (blanks : List Bytes) (X : Bytes) (h : Hdrs) (hb : blanks.all padOK = true)
-    (hf : fits (renderBlanks blanks ++ X)) :
-    uriPass (renderBlanks blanks ++ X) h = uriPass X h ∧ fits X := by
+    (hf : fits lim (renderBlanks blanks ++ X)) :
+    uriPassLim lim (renderBlanks blanks ++ X) h = uriPassLim lim X h ∧ fits lim X := by
   induction blanks with
   | nil => exact ⟨rfl, hf⟩
   | cons p r ih =>
@@ -233,8 +234,8 @@ theorem uriPass_blanks (blanks : List Bytes) (X : Bytes) (h : Hdrs) (hb : blanks
     rw [uriPass_line p (renderBlanks r ++ X) _ h hp hlen (Or.inl rfl), uriLine_blank p h (padOK_allWs hb.1)]
     exact ih hb.2 hf'
 
-theorem uriPass_trail (trail : Bytes) (h : Hdrs) (ht : padOK trail = true) (hf : fits trail) :
-    uriPass trail h = ([], .eof) := by
+theorem uriPass_trail (trail : Bytes) (h : Hdrs) (ht : padOK trail = true) (hf : fits lim trail) :
+    uriPassLim lim trail h = ([], .eof) := by
   by_cases hn : trail = []
   · subst hn; exact uriPass_nil h
   · have hp := padOK_noLF ht
@@ -271,17 +272,17 @@ theorem content_noLF_uri (it : Item) (l : ItemLay) (hit : itemOK .uri it = true)
   | frame t fr => simp [itemOK] at hit
 
 /-- what one entry does to the rest of the pass -/
-def uriStep (it : Item) (h : Hdrs) (R : Bytes) : List Ammo × Stop :=
+def uriStep (lim : Option Nat) (it : Item) (h : Hdrs) (R : Bytes) : List Ammo × Stop :=
   match it with
-  | .hdr k v => uriPass R (hset h k v)
-  | .req u t _ => ({ method := getBytes, url := u, body := [], tag := t, hdrs := h } :: (uriPass R h).1, (uriPass R h).2)
-  | .frame _ _ => uriPass R h
+  | .hdr k v => uriPassLim lim R (hset h k v)
+  | .req u t _ => ({ method := getBytes, url := u, body := [], tag := t, hdrs := h } :: (uriPassLim lim R h).1, (uriPassLim lim R h).2)
+  | .frame _ _ => uriPassLim lim R h
 
 theorem uriPass_item (it : Item) (l : ItemLay) (h : Hdrs) (R bs : Bytes)
     (hit : itemOK .uri it = true) (hl : itemLayOK l = true)
-    (hfit : (l.pre ++ content .uri it l ++ l.post).length < maxTok)
+    (hfit : tooLong lim (l.pre ++ content .uri it l ++ l.post).length = false)
     (hbs : bs = (l.pre ++ content .uri it l ++ l.post) ++ LF :: R ∨ (bs = l.pre ++ content .uri it l ++ l.post ∧ R = [])) :
-    uriPass bs h = uriStep it h R := by
+    uriPassLim lim bs h = uriStep lim it h R := by
   have hLF := content_noLF_uri it l hit hl
   have hne : l.pre ++ content .uri it l ++ l.post ≠ [] := by
     cases it with
@@ -307,8 +308,8 @@ theorem uriPass_item (it : Item) (l : ItemLay) (h : Hdrs) (R bs : Bytes)
   | frame t fr => simp [itemOK] at hit
 
 theorem expAmmo_uri_cons (it : Item) (r : List Item) (h : Hdrs) (X : Bytes)
-    (ih : ∀ h', uriPass X h' = (expAmmo .uri h' r, .eof)) (hit : itemOK .uri it = true) :
-    uriStep it h X = (expAmmo .uri h (it :: r), .eof) := by
+    (ih : ∀ h', uriPassLim lim X h' = (expAmmo .uri h' r, .eof)) (hit : itemOK .uri it = true) :
+    uriStep lim it h X = (expAmmo .uri h (it :: r), .eof) := by
   cases it with
   | hdr k v => simp [uriStep, expAmmo, ih]
   | req u t b => simp [uriStep, expAmmo, ih]
@@ -319,8 +320,8 @@ theorem expAmmo_uri_cons (it : Item) (r : List Item) (h : Hdrs) (X : Bytes)
 theorem uriPass_renderItems (fnl : Bool) (trail : Bytes) (htrail : padOK trail = true) :
     ∀ (items : List Item) (per : List ItemLay) (h : Hdrs),
       itemsOK .uri items = true → per.all itemLayOK = true →
-      fits (renderItems .uri fnl trail items per) →
-      uriPass (renderItems .uri fnl trail items per) h = (expAmmo .uri h items, .eof)
+      fits lim (renderItems .uri fnl trail items per) →
+      uriPassLim lim (renderItems .uri fnl trail items per) h = (expAmmo .uri h items, .eof)
   | [], per, h, _, _, hf => by
     simp only [renderItems] at hf ⊢
     exact uriPass_trail trail h htrail hf
